@@ -1475,6 +1475,13 @@ class HtmlTreeView(HtmlView):
       )
 
     # Deep hierarchy merge.
+    # NOTE: the merge writes into the dicts of its first argument, which the
+    # siblings of this child share (e.g. `extra_flags`): they are copied first.
+    def _copy_dicts(v):
+      if type(v) is dict:  # pylint: disable=unidiomatic-typecheck
+        return {k: _copy_dicts(x) for k, x in v.items()}
+      return v
+    call_kwargs = {k: _copy_dicts(v) for k, v in call_kwargs.items()}
     return utils.merge_tree(call_kwargs, overriden_kwargs)
 
   @staticmethod
